@@ -3,7 +3,7 @@
 
 exit 0: the property held on everything explored; exit 1: VIOLATION line(s) printed;
 exit 2: tool error / timeout (never reported as a violation)."""
-import json, os, re, sys, time, random, traceback
+import shutil, json, os, re, sys, time, random, traceback
 
 sys.path.insert(0, os.path.dirname(os.path.abspath(__file__)))
 import vlib
@@ -1078,7 +1078,159 @@ def check_C04(chk):
                         'programs whose input grows with $n (`..` over an array of $n elements) are checked for stack only']
 
 
-CHECKS = {'C04': check_C04, 'C14': check_C14, 'C16': check_C16, 'C20': check_C20, 'C07': check_C07, 'C13': check_C13, 'C12': check_C12, 'C17': check_C17, 'C18': check_C18, 'C15': check_C15, 'C09': check_C09, 'C08': check_C08, 'C11': check_C11, 'C10': check_C10, 'C01': check_C01, 'C02': check_C02, 'C03': check_C03}
+def check_C19(chk):
+    import subprocess, corpus
+    q = chk.tier == 'quick'
+    chk.rule = ('design: TLC explores all interleavings of 3 threads x 2 runs over 2 jobs of JaqConc (runs share the compiled filters, which no action writes): every run yields what the job yields '
+                'alone. static: the harness asserts `Filter: Send + Sync` at compile time, and a second harness built against jaq-json with feature `sync` asserts it for `Val` too. dynamic: '
+                'every example of the manual that does not read the clock / environment / input (about 540 filters, all built-in families incl. regex, @html, dates, formats) is compiled once; '
+                'each is run (a) alone in a fresh process, (b) one after the other in one process in two shuffled orders, (c) from T threads x R rounds in per-thread shuffled order, released by '
+                'a barrier, sharing the compiled filters; every recorded run <<thread, seq, job, outputs>> is validated by TLC (Trace_Conc) against the table of isolated runs. Same for the '
+                'thread-safe value representation with one input value shared by all threads. history: about 110 micro filters (one native each; one regular expression under twelve flag sets x five regex filters) run as all ordered pairs back to back on one thread and concurrently.')
+    res = vlib.run_tlc('MC_Conc', 'SPECIFICATION Spec\nCONSTANTS\n Threads = {1, 2, 3}\n Jobs = {"a", "b"}\n Eval <- MCEval\n MaxRuns = 2\nINVARIANTS RunsEqualIsolated SharedIsConstant\nCHECK_DEADLOCK FALSE\n',
+                       'C19-design', workers=8)
+    chk.add_tlc(res)
+    for inv in res['invariant_violated']:
+        chk.violation(f'spec:conc:{inv}', f'TLC: invariant {inv} of JaqConc violated (see {res["out"]})', {'tlc_out': res['out']})
+    vlib.build_harness()
+    skip = re.compile(r'\b(now|localtime|strflocaltime|input|inputs|env|input_filename|halt|halt_error|debug|stderr|repl|input_line_number|getpath\(\["a","b"\]\)x)\b|\$ENV|\$__loc__|\$__prog')
+    jobs = [e for e in corpus.examples() if not skip.search(e['text'])]
+    jp = os.path.join(W, 'C19-jobs.ndjson')
+    with open(jp, 'w') as f:
+        for e in jobs:
+            f.write(json.dumps({'id': e['id'], 'text': e['text']}) + '\n')
+    def hz(*a):
+        r = subprocess.run([vlib.HARNESS, 'conc'] + list(a), stdout=subprocess.PIPE, stderr=subprocess.PIPE, text=True)
+        if r.returncode != 0:
+            raise ToolError(f'harness conc {a[0]} failed: {r.stderr[-500:]}')
+    alone_p = os.path.join(W, 'C19-alone.ndjson')
+    hz('alone', jp, alone_p)
+    alone = {}
+    for l in open(alone_p):
+        j = json.loads(l)
+        # several examples share a position in the manual: the identifier is made unique below
+        alone.setdefault(j['job'], j['out'])
+    # identifiers must be unique for the table
+    if len(alone) != len(jobs):
+        seen = {}
+        jobs2 = []
+        for e in jobs:
+            seen[e['id']] = seen.get(e['id'], 0) + 1
+            jobs2.append({'id': e['id'] if seen[e['id']] == 1 else f"{e['id']}#{seen[e['id']]}", 'text': e['text']})
+        with open(jp, 'w') as f:
+            for e in jobs2:
+                f.write(json.dumps(e) + '\n')
+        hz('alone', jp, alone_p)
+        alone = {json.loads(l)['job']: json.loads(l)['out'] for l in open(alone_p)}
+        jobs = jobs2
+    texts = {e['id']: e['text'] for e in jobs}
+    T, R = (4, 2) if q else (16, 6)
+    runs = []
+    # micro jobs: one native each, and the same regular expression under every set of flags; run as all ordered pairs
+    # back to back (a result must not depend on what ran just before) and concurrently
+    flags = ['', 'g', 'i', 'x', 's', 'n', 'l', 'gx', 'gi', 'xi', 'gs', 'nx']
+    micro = ['"<&>\\"\'" | @html', '"&lt;&amp;&gt;&quot;&apos;" | @htmld', '"a b/ä" | @uri', '"a%20b%2F%C3%A4" | @urid', '"aä" | @base64', '"YcOk" | @base64d', '"a\'b" | @sh', '[1,"a,b"] | @csv',
+             '[1,"a\tb"] | @tsv', '{"a":[1]} | @json', '[1] | @text', '[1,"a"] | tojson', '"[1,2.50]" | fromjson', '"aXbxc" | ascii_downcase', '"aXbxc" | ascii_upcase', '"a,b" | split(",")',
+             '"a,b" | split(", *"; null)', '0 | strftime("%Y-%m-%d")', '0 | strftime("%H:%M:%S")', '0 | todate', '"1970-01-02T00:00:00Z" | fromdate', '86400 | gmtime', '[1970,0,2,0,0,0] | mktime',
+             '"1970-01-02" | strptime("%Y-%m-%d")', '"02/01/1970" | strptime("%d/%m/%Y")', '[3,1,2] | sort', '[{"a":2},{"a":1}] | sort_by(.a)', '"abc" | ltrimstr("a")', '"abc" | rtrimstr("c")',
+             '"1.50" | tonumber', '1.5 | tostring', '[1,[2]] | flatten', '{"a":1} | to_entries', '"aä" | explode', '[97,228] | implode', '"aä" | tobytes', '"a-b" | ascii', '2 | pow(.; 10)', '1.5 | floor',
+             '"x" | ltrimstr("x") | length', '[1,2] | tocsv', '"1,2" | fromcsv', '{"a":1} | toyaml', '"a: 1" | fromyaml', '{"a":1} | totoml', '"a = 1" | fromtoml', '[1] | tocbor | fromcbor',
+             '"<a b=\\"1\\">t</a>" | fromxml', '{"t":"a"} | toxml', '"a\tb" | fromtsv', '["a","b"] | totsv']
+    for fl in flags:
+        micro += [f'"ab a b AB\\nab" | [match("a b"; "{fl}").string]', f'"ab a b AB\\nab" | test("A B"; "{fl}")', f'"n # 1" | sub("# \\\\d"; "_"; "{fl}")', f'"aXbxc" | [scan("x"; "{fl}")]',
+                  f'"a.b\\nc" | [match("a.b.c"; "{fl}").length]']
+    mp = os.path.join(W, 'C19-micro.ndjson')
+    with open(mp, 'w') as f:
+        for i, t in enumerate(micro):
+            f.write(json.dumps({'id': f'm{i}', 'text': t}) + '\n')
+            texts[f'm{i}'] = t
+    malone_p = os.path.join(W, 'C19-micro-alone.ndjson')
+    hz('alone', mp, malone_p)
+    malone = {json.loads(l)['job']: json.loads(l)['out'] for l in open(malone_p)}
+    chk.extra['micro_jobs'] = len(micro)
+    chk.extra['micro_not_compiling'] = sum(1 for v in malone.values() if v == ['<does not compile>'])
+    mruns = []
+    for name, args in (('pairs', ['pairs', mp, None]), ('micro-par', ['par', mp, None, str(T), str(R * 5), str(chk.seed + 5)])):
+        outp = os.path.join(W, f'C19-{name}.ndjson')
+        args[2] = outp
+        hz(*args)
+        mruns.append((name, outp))
+    for name, args in (('seq1', ['seq', jp, None, str(chk.seed + 1)]), ('seq2', ['seq', jp, None, str(chk.seed + 2)]), ('par', ['par', jp, None, str(T), str(R), str(chk.seed + 3)]),
+                       ('par2', ['par', jp, None, '2', str(R), str(chk.seed + 4)])):
+        outp = os.path.join(W, f'C19-{name}.ndjson')
+        args[2] = outp
+        hz(*args)
+        runs.append((name, outp))
+    # trace validation: table first, then every recorded run
+    def validate(name, table, lines):
+        tr = os.path.join(W, f'trace-C19-{name}.ndjson')
+        with open(tr, 'w') as f:
+            f.write(json.dumps({'alone': table}) + '\n')
+            for l in lines:
+                f.write(l if l.endswith('\n') else l + '\n')
+        res = vlib.run_tlc('Trace_Conc', 'SPECIFICATION Spec\nINVARIANTS Report RunsEqualIsolated SharedIsConstant\nCHECK_DEADLOCK FALSE\n', f'C19-trace-{name}', workers=1, timeout=3000,
+                           env_extra={'TRACE': tr}, xss='1g', heap='4g')
+        chk.add_tlc(res)
+        if not list(vlib.tuple_lines(res['out'], 'RESULT')):
+            raise ToolError(f'Trace_Conc did not consume the trace {tr}: {res["out"]}')
+        n = 0
+        for l in vlib.tagged_lines(res['out'], 'REJECTED'):
+            rec = json.loads(l)
+            r = rec['rec']
+            chk.violation(f"{name.rstrip('12')}:{r['job']}", f"{name}: `{texts.get(r['job'], r['job'])}` yields {json.dumps(r['out'])[:200]} (thread {r['t']}, run {r['seq']}); alone it yields {json.dumps(rec['alone'])[:200]}", rec)
+            n += 1
+        return n
+    total = 0
+    for name, outp in runs:
+        lines = open(outp).readlines()
+        total += len(lines)
+        validate(name, alone, lines)
+    for name, outp in mruns:
+        lines = open(outp).readlines()
+        total += len(lines)
+        validate(name, malone, lines)
+    chk.traces += total
+    chk.evaluations += total + len(alone)
+    chk.extra['jobs'] = len(jobs)
+    chk.extra['recorded_runs'] = total
+    chk.extra['threads_rounds'] = [T, R]
+    # thread-safe value representation
+    sdir = '/verif/harness-sync'
+    if not os.path.exists(os.path.join(sdir, 'Cargo.lock')):
+        shutil.copy('/repo/Cargo.lock', os.path.join(sdir, 'Cargo.lock'))
+    b = subprocess.run(['cargo', 'build', '--release', '--offline'], cwd=sdir, env=vlib.ENV, stdout=subprocess.PIPE, stderr=subprocess.STDOUT, text=True)
+    if b.returncode != 0:
+        if 'cannot be sent between threads safely' in b.stdout or 'cannot be shared between threads safely' in b.stdout or 'E0277' in b.stdout:
+            msg = [l for l in b.stdout.splitlines() if 'error' in l][:3]
+            chk.violation('static:send-sync', f'with jaq-json feature `sync`, `Val` / the compiled filter are not Send + Sync: {" ".join(msg)[:400]}', {'build_output': b.stdout[-3000:]})
+        else:
+            raise ToolError('harness-sync build failed:\n' + b.stdout[-3000:])
+    else:
+        sjobs = ['.', '.[]', 'map(tostring)', 'tojson', '.[1] * 2', '[.[] | numbers | . + 0.5]', 'to_entries', 'sort', 'group_by(type)', '[..]', '[paths]', 'tojson | fromjson', '.[8]', '.[8].a[1].b',
+                 '[.[] | tojson | fromjson]', 'map(type)', 'unique', '.[1] + .[1]', '.[8].c == .[1]', 'del(.[0])', '.[8] |= keys', 'map(select(type == "number")) | add', '[.[] | strings | ascii_downcase]',
+                 'first(.[] | arrays)', 'reverse', 'min, max', 'flatten', 'index(2.5)', 'map(. == .)', 'tostring', '@json', 'length', '[limit(3; repeat(.[0]))]', 'with_entries(.value |= tostring)',
+                 '.[3] | tostring', '.[4], .[3]', '[.[1], .[8].c] | unique', 'walk(if type == "number" then . + 1 else . end)']
+        sp = os.path.join(W, 'C19-sync-jobs.ndjson')
+        with open(sp, 'w') as f:
+            for i, t in enumerate(sjobs):
+                f.write(json.dumps({'id': f's{i}', 'text': t}) + '\n')
+        so = os.path.join(W, 'C19-sync.ndjson')
+        r = subprocess.run([os.path.join(sdir, 'target', 'release', 'jaq-verif-harness-sync'), sp, so, '8' if q else '16', '20' if q else '100'], stdout=subprocess.PIPE, stderr=subprocess.PIPE, text=True)
+        if r.returncode != 0:
+            raise ToolError(f'harness-sync failed: {r.stderr[-500:]}')
+        lines = open(so).readlines()
+        table = json.loads(lines[0])['alone']
+        texts.update({f's{i}': t for i, t in enumerate(sjobs)})
+        validate('sync', table, lines[1:])
+        chk.traces += len(lines) - 1
+        chk.evaluations += len(lines) - 1
+        chk.extra['sync_runs'] = len(lines) - 1
+    chk.assumptions += ['schedules are those the OS scheduler produces for barrier-released threads; interleavings inside std reference counting are not enumerated',
+                        'filters reading the clock, the environment or the input stream are excluded, as the property says',
+                        'isolated = a fresh process per job; outputs are compared as printed values (first 64 outputs)']
+
+
+CHECKS = {'C19': check_C19, 'C04': check_C04, 'C14': check_C14, 'C16': check_C16, 'C20': check_C20, 'C07': check_C07, 'C13': check_C13, 'C12': check_C12, 'C17': check_C17, 'C18': check_C18, 'C15': check_C15, 'C09': check_C09, 'C08': check_C08, 'C11': check_C11, 'C10': check_C10, 'C01': check_C01, 'C02': check_C02, 'C03': check_C03}
 
 
 def main():
